@@ -29,6 +29,7 @@ type twoCfg struct {
 	podOnNodeA       bool // A's pod may sit on one of A's nodes (non-empty nodes)
 	affinityFormsB   bool // B's pod may select B through required node affinity (plus a NotIn on A's value)
 	classesA         []int
+	autoA            bool // A leaves min_nodes/max_nodes out: its bounds are whatever its cloud group reports (also min = max, or 0..0)
 }
 
 func buildTwo(c twoCfg) (*vWorld, int, int) {
@@ -48,7 +49,14 @@ func buildTwo(c twoCfg) (*vWorld, int, int) {
 		// cloud refusal: the ASG may already be at its maximum
 		asgMaxA = int64(c.nA) + verifInt(c.pa+"asg.headroom", 0, 3)
 	}
-	a := w.addGroup(oa, 0, asgMaxA, 0)
+	asgMinA := int64(0)
+	if c.autoA {
+		oa.MinNodes, oa.MaxNodes = 0, 0
+		asgMinA = verifInt(c.pa+"asg.min", 0, int64(c.nA)+1)
+		asgMaxA = verifInt(c.pa+"asg.max", 0, int64(c.nA)+2)
+		verifAssume(asgMinA <= asgMaxA) // pinned groups (min = max) are legal in AWS
+	}
+	a := w.addGroup(oa, asgMinA, asgMaxA, 0)
 	ob := groupOpts(1)
 	ob.SoftDeleteGracePeriod, ob.HardDeleteGracePeriod = gm.soft, gm.hard
 	ob.MinNodes, ob.MaxNodes = 0, c.nB+3
@@ -178,7 +186,7 @@ func assertSameCalls(id string, x, y []aws.VerifCall) {
 // shape: [nodes A, nodes B, dry switch (0 group option, 1 global flag), class menu of A]
 func VerifHarness_C11() {
 	nA, nB, global, menu := verifShape(0), verifShape(1), verifShape(2), verifShape(3)
-	classes := [][]int{{tcNone, tcEsc}, {tcNone, tcEsc, tcForce}}[menu]
+	classes := [][]int{{tcNone, tcEsc}, {tcNone, tcEsc, tcForce}, {tcNone, tcEscGarbage, tcEscEmpty}}[menu]
 	cfg := twoCfg{pa: "A.", nA: nA, nB: nB, trackers: true, classesA: classes, podOnNodeA: true}
 	cfg.dryA, cfg.dryGlobal = global == 0, global == 1
 	w1, a1, b1 := buildTwo(cfg)
@@ -218,11 +226,11 @@ func VerifHarness_C11() {
 }
 
 // VerifHarness_C12: node groups are isolated from each other.
-// shape: [nodes A, nodes B, A is the default group (0/1)]
+// shape: [nodes A, nodes B, A is the default group (0/1), A auto-discovers its bounds (0/1)]
 func VerifHarness_C12() {
 	nA, nB, def := verifShape(0), verifShape(1), verifShape(2)
 	classes := []int{tcNone, tcEsc, tcForce}
-	c1 := twoCfg{pa: "A.", nA: nA, nB: nB, classesA: classes, defaultA: def == 1, faultsA: true, affinityFormsB: true}
+	c1 := twoCfg{pa: "A.", nA: nA, nB: nB, classesA: classes, defaultA: def == 1, faultsA: true, affinityFormsB: true, autoA: verifShape(3) == 1}
 	// reference runs: one with A empty (no nodes, no pods: processed, nothing to do), one with
 	// B empty. If B is acted on identically whatever A looks like and when A is empty, any two
 	// worlds differing only inside A give the same actions on B (and symmetrically for A).
